@@ -101,6 +101,8 @@ pub fn entries() -> &'static Vec<Entry> {
             entry::<RegionSut<PairsHuffU8>>(),
             entry::<RegionSut<OptSliceStr>>(),
             entry::<RegionSut<Bench>>(),
+            entry::<RegionSut<OptSliceU128>>(),
+            entry::<RegionSut<ColsI128>>(),
             entry::<RegionSut<HuffU8>>(),
             entry::<RegionSut<HuffU16>>(),
             entry::<RegionSut<Codec>>(),
